@@ -896,12 +896,22 @@ where
     F: Future<Output = T> + FusedFuture,
     S: Stream + FusedStream,
 {
+    use futures::future::FutureExt;
     use futures::stream::StreamExt;
 
     let mut next_bg = bg_stream.next();
     loop {
         select! {
-            x = fg_future => return x,
+            x = fg_future => {
+                // Jobs that have already finished keep their target locks
+                // until their futures run to completion.  Drain them before
+                // handing control back, since the caller may block (e.g. on
+                // another target's lock) and must not do so while still
+                // holding the locks of finished jobs.
+                mem::drop(next_bg);
+                while let Some(Some(_)) = bg_stream.next().now_or_never() {}
+                return x;
+            }
             _ = next_bg => {
                 next_bg = bg_stream.next();
             }
